@@ -131,11 +131,50 @@ def pp_item(it):
     raise vparse.VParseError('pp_item: ' + str(k))
 
 
-def pp_module(m):
+class ParserD(vparse.Parser):
+    """vparse.Parser that additionally KEEPS the default value of every `parameter P = e` of a module header (the shared
+    parser parses and drops it): `self.pdefs` = list of (module, parameter, expr | None).  The tree is unchanged."""
+
+    def __init__(self, text):
+        super().__init__(text)
+        self.pdefs = []
+
+    def module(self):
+        # look ahead over the parameter port list only, then let the shared parser build the tree
+        j = self.i
+        if self.peek()[1] == 'module' and self.peek(2)[1] == '#':
+            name = self.peek(1)[1]
+            self.i += 4                      # module NAME # (
+            while not self.at(')'):
+                self.eat('parameter')
+                pn = self.ident()
+                e = None
+                if self.at('='):
+                    self.eat('=')
+                    e = self.expr()
+                self.pdefs.append((name, pn, e))
+                if self.at(','):
+                    self.eat(',')
+            self.i = j
+        return super().module()
+
+
+def parse_d(text):
+    """-> (tree, pdefs)"""
+    p = ParserD(text)
+    return p.design(), p.pdefs
+
+
+def pdefs_sexp(pdefs):
+    return '(pdefs ' + ' '.join(f'(d {m} {n} {vparse.sexp(e)})' for m, n, e in pdefs if e is not None) + ')'
+
+
+def pp_module(m, pdefs=()):
     _, name, params, ports, items = m
     out = f'module {name} '
     if params[1:]:
-        out += '#(' + ', '.join('parameter ' + p for p in params[1:]) + ') '
+        dv = {n: e for mm, n, e in pdefs if mm == name}
+        out += '#(' + ', '.join('parameter ' + p + (f' = {pp_expr(dv[p])}' if dv.get(p) is not None else '') for p in params[1:]) + ') '
     ps = []
     for p in ports[1:]:
         d = {'in': 'input', 'out': 'output', 'inout': 'inout'}[p[1]]
@@ -145,8 +184,8 @@ def pp_module(m):
     return out + '\nendmodule\n'
 
 
-def pp_design(tree):
-    return '\n'.join(pp_module(m) for m in tree[1:])
+def pp_design(tree, pdefs=()):
+    return '\n'.join(pp_module(m, pdefs) for m in tree[1:])
 
 
 # ------------------------------------------------------------------------------------------------ round trip
@@ -179,15 +218,16 @@ def sig_tokens(text):
     return out
 
 
-def roundtrip(text, tree):
+def roundtrip(text, tree, pdefs=()):
     """None when the parser is validated on this text, else a short description of the first mismatch"""
     try:
-        back = pp_design(tree)
+        back = pp_design(tree, pdefs)
         a, b = sig_tokens(text), sig_tokens(back)
         if a != b:
             k = next((i for i, (x, y) in enumerate(zip(a, b)) if x != y), min(len(a), len(b)))
             return f'token {k}: emitted …{" ".join(a[max(0, k - 4):k + 3])}… vs reprinted …{" ".join(b[max(0, k - 4):k + 3])}…'
-        if vparse.parse(back) != tree:
+        t2, p2 = parse_d(back)
+        if t2 != tree or list(p2) != list(pdefs):
             return 'parse(pp(parse(text))) differs from parse(text)'
     except vparse.VParseError as e:
         return f'reprinted text does not parse: {e}'
